@@ -20,6 +20,8 @@ class _Replay(dict):
     def get(self, key, default=None):
         if key.startswith("ObjectRetrieval._retrieve_object_rec#"):
             return "h_retrieve.resolution_cases"
+        if key.startswith("ObjectRetrieval.retrieve_object#"):
+            return "h_retrieve.retrieve_cases"
         return dict.get(self, key, default)
 
 
